@@ -27,7 +27,7 @@ def regen(ctx):
 
 
 SPEC = {
-    "lean_props": ["Hive.Props.C07", "Hive.Props.C07b", "Hive.Props.C07c", "Hive.Props.C07d"],
+    "lean_props": ["Hive.Props.C07", "Hive.Props.C07b", "Hive.Props.C07c", "Hive.Props.C07d", "Hive.Props.C07e"],
     "regen": regen,
     "lean_namespace": ["Hive.Seq", "Hive.Seq.Conc", "Hive.Seq.Layered", "Hive.Seq.Go"],
     "driver": "drv_c07",
